@@ -97,14 +97,26 @@ class BuildDirs:
         file system.
         """
         with self._lock:
-            if norm_cased_dir in self._build_dir_counts:
+            return self._is_removed_norm_case(norm_cased_dir)
+
+    def confirm_norm_cased_dir_exists(self, norm_cased_dir):
+        """Respond to finding the specified directory in the real file system.
+
+        This is the same as ``handle_norm_cased_dir_exists``, except it
+        first checks again whether the directory was removed in the
+        virtual state of the file system. Another thread might have
+        virtually removed it (due to an exception while building a file)
+        after the caller's call to ``is_removed_norm_case``.
+
+        Returns:
+            bool: Whether the directory exists in the virtual state of
+                the file system.
+        """
+        with self._lock:
+            if self._is_removed_norm_case(norm_cased_dir):
                 return False
-            elif norm_cased_dir in self._removed_dirs:
-                return True
-            elif norm_cased_dir not in self._maybe_removed_dirs:
-                return False
-            else:
-                return self._check_maybe_removed_dir(norm_cased_dir)
+            self._handle_dir_exists(norm_cased_dir)
+            return True
 
     def handle_norm_cased_dir_exists(self, norm_cased_dir):
         """Respond to the existence of the specified norm-cased directory.
@@ -217,6 +229,21 @@ class BuildDirs:
         """
         with self._lock:
             return list(self._error_created_dirs)
+
+    def _is_removed_norm_case(self, norm_cased_dir):
+        """Implementation of ``is_removed_norm_case``.
+
+        The only difference is that ``is_removed_norm_case`` acquires
+        ``_lock`` first.
+        """
+        if norm_cased_dir in self._build_dir_counts:
+            return False
+        elif norm_cased_dir in self._removed_dirs:
+            return True
+        elif norm_cased_dir not in self._maybe_removed_dirs:
+            return False
+        else:
+            return self._check_maybe_removed_dir(norm_cased_dir)
 
     def _handle_dir_exists(self, norm_cased_dir):
         """Implementation of ``handle_norm_cased_dir_exists``.
